@@ -52,6 +52,7 @@ fn wide_block(coin: &str, h: u64, n_tx: usize, max_out: usize, rng: &mut Rng) ->
             inputs: vec![input],
             outputs,
             locktime: k as u32,
+            cs_width: 0,
         });
     }
     let _ = coin;
